@@ -114,7 +114,7 @@ class Leg:
                             self.steps += int(f[5])
                             if f[6] == "1":
                                 self.nontrivial_runs += 1
-                                self.hashes.add(f[2] + f[3])
+                                self.hashes.add((int(f[2], 16) * 0x9E3779B97F4A7C15 ^ int(f[3], 16)) & 0xFFFFFFFFFFFFFFFF)
                     elif line.startswith("SUMMARY "):
                         last_summary = json.loads(line[8:])
                     elif line.startswith("V ") and vline is None:
